@@ -1055,7 +1055,12 @@ impl Lowerer {
                 if let Some((cid, _)) = input_columns.get(&name) {
                     *cid
                 } else {
-                    panic!("cannot find cid by id={id} and name={name:?}");
+                    // reachable from user input: a column called like an internal
+                    // name (`_infer`) resolves to the internal declaration
+                    return Err(Error::new_assert(format!(
+                        "cannot find cid by id={id} and name={name:?}"
+                    ))
+                    .with_span(self.root_mod.span_map.get(&id).cloned()));
                 }
             }
             None => {
